@@ -152,13 +152,15 @@ def escrowCheckBody : List String :=
    "ret:keeper.bankKeeper.GetAllBalances(ctx, govAddr).IsAllGTE(total)"]
 
 /-- the code as it is: `AddDeposit` refuses the gov account before it transfers or records anything; the pass branch runs a
-check with the body above on the cache context after the message loop and before the `if err == nil { writeCache() } else { FAILED }` -/
+check with the body above on the cache context after the message loop and before the `if err == nil { writeCache() } else { FAILED }`;
+the deposits of a tallied proposal are settled (unless an expedited one is converted) before the outcome switch -/
 def govEscrowCode : FxVerif.Model.C07Escrow.Code :=
   { addDepositRefusesGov :=
       comesBefore "refuse:govDepositor" "transfer" addDepositSteps && comesBefore "refuse:govDepositor" "record" addDepositSteps,
     passChecksEscrow :=
       govEscrowChecks.any fun (name, body) =>
         body == escrowCheckBody && comesBefore "msgLoop" ("check:" ++ name) govPassBranch &&
-          comesBefore ("check:" ++ name) "commitIfOk" govPassBranch }
+          comesBefore ("check:" ++ name) "commitIfOk" govPassBranch,
+    settleBeforeMsgs := comesBefore "settle:!(proposal.Expedited && !passes)" "outcomeSwitch" govActiveSteps }
 
 end FxVerif.Model.C07
